@@ -343,6 +343,31 @@ func (r *EngineRunner) crashLines(f []string, emit func(line, res string)) {
 							cuts = append(cuts, fmt.Sprintf("at:%s:%d", r.fileName(p), c))
 						}
 					}
+					// a few bytes into a record (less than a chunk header survives): the write boundaries of
+					// the unsynced tail are the sizes the file had after the earlier events
+					if r.crashProp == "C03" {
+						seen := map[int64]bool{}
+						var bounds []int64
+						for j := from; j <= k && j < len(r.shadow.snaps); j++ {
+							if e, ok := r.shadow.snaps[j][p]; ok {
+								b := int64(len(e.data))
+								if b >= sf.durable && b < int64(len(sf.data)) && !seen[b] {
+									seen[b] = true
+									bounds = append(bounds, b)
+								}
+							}
+						}
+						if len(bounds) > 2 {
+							bounds = bounds[len(bounds)-2:]
+						}
+						for _, b := range bounds {
+							for _, dl := range []int64{1, 3, 6} {
+								if b+dl < int64(len(sf.data)) {
+									cuts = append(cuts, fmt.Sprintf("at:%s:%d:hdr", r.fileName(p), b+dl))
+								}
+							}
+						}
+					}
 				}
 			}
 		}
@@ -361,7 +386,7 @@ func (r *EngineRunner) crashLines(f []string, emit func(line, res string)) {
 					return -1
 				}
 			case strings.HasPrefix(cut, "at:"):
-				parts := strings.Split(cut, ":")
+				parts := strings.Split(strings.TrimSuffix(cut, ":hdr"), ":")
 				cutf = func(p string, sf shadowFile) int64 {
 					if r.fileName(p) == parts[1] {
 						return int64(atoi(parts[2]))
@@ -381,7 +406,17 @@ func (r *EngineRunner) crashLines(f []string, emit func(line, res string)) {
 				oc = "durable" // a byte cut guarantees what the durable cut guarantees
 			}
 			r.crashOracle(k, oc, res, d1, d2)
-			emit(fmt.Sprintf("E crashat %d %s %s", k, cut, strings.Join(cfg, " ")), res)
+			cutTok := strings.TrimSuffix(cut, ":hdr")
+			emit(fmt.Sprintf("E crashat %d %s %s", k, cutTok, strings.Join(cfg, " ")), res)
+			if strings.HasSuffix(cut, ":hdr") && d1 != nil {
+				// the recovered database goes on: one more Put, a restart, another restart
+				if err := r.shadow.materialize(k, r.dir(), root, cutf); err == nil {
+					res := r.continuePlain(k, root, cfg, d1)
+					emit(fmt.Sprintf("E crashcontp %d %s %s %s %s", k, cutTok, strings.Join(cfg, " "), contKey, contVal), res)
+				}
+				_ = os.RemoveAll(root)
+				_ = os.MkdirAll(root, 0755)
+			}
 			if cut == "none" && r.crashProp == "C07" && d1 != nil {
 				// later histories: the recovered database deletes a key and merges again (a left-over
 				// merge directory must be discarded), then restarts twice
@@ -454,6 +489,50 @@ func (r *EngineRunner) continueImage(k int, root string, cfg []string, d1 map[st
 		r.fail("C04", "crash after %d events, then one more committed batch (id %d) and a clean restart: the mapping is not the recovered one plus that batch (a crashed batch became visible in part or as a whole): %s", k, id, why)
 	}
 	return fmt.Sprintf("ok %d %s", id, digestMap(d))
+}
+
+// continuePlain: open the crash image (a torn tail is recovered), put one more key, close, open, dump, close,
+// open, dump: both dumps must be the recovered mapping plus that key.
+func (r *EngineRunner) continuePlain(k int, root string, cfg []string, d1 map[string][]byte) string {
+	saved1, saved2, saved3 := fio.VerifEvent, kv.VerifFsEvent, kv.VerifMergeFile
+	fio.VerifEvent, kv.VerifFsEvent, kv.VerifMergeFile = nil, nil, nil
+	defer func() { fio.VerifEvent, kv.VerifFsEvent, kv.VerifMergeFile = saved1, saved2, saved3 }()
+	opts := parseOpts(cfg, filepath.Join(root, "db"))
+	db, err := kv.Open(opts)
+	if err != nil {
+		return "err " + EngErr(err)
+	}
+	key, _ := ParseTok(contKey)
+	val, _ := ParseTok(contVal)
+	if err := db.Put(key, val); err != nil {
+		_ = db.Close()
+		return "err put " + EngErr(err)
+	}
+	_ = db.Close()
+	want := make(map[string][]byte, len(d1)+1)
+	for kk, v := range d1 {
+		want[kk] = v
+	}
+	want[string(key)] = val
+	out := "ok"
+	for round := 1; round <= 2; round++ {
+		db, err = kv.Open(opts)
+		if err != nil {
+			r.fail("C03", "crash after %d events with a tail cut inside a record, recovery, one more Put: restart %d fails: %s", k, round, EngErr(err))
+			return out + " err " + EngErr(err)
+		}
+		d, derr := dumpDB(db)
+		_ = db.Close()
+		if derr != nil {
+			r.fail("C03", "crash after %d events with a tail cut inside a record, recovery, one more Put: dump after restart %d failed: %s", k, round, EngErr(derr))
+			return out + " err dump"
+		}
+		if why, ok := sameMap(want, d); !ok {
+			r.fail("C03", "crash after %d events with a tail cut inside a record, recovery, one more Put: after restart %d the mapping is not the recovered one plus that Put: %s", k, round, why)
+		}
+		out += " " + digestMap(d)
+	}
+	return out
 }
 
 // continueMerge: open the crash image, delete the smallest key, Merge, close, open, dump, close,
